@@ -10,6 +10,7 @@ files compared with the supplied text modulo indentation and trailing blanks.
 import json
 import os
 import re
+import sys
 import types
 
 import vlib
@@ -170,7 +171,7 @@ def parse_blocks(text):
     res = []
     cur = None
     for line in text.split("\n"):
-        m = re.search(r"splicer (begin|end) (\S+)", line)
+        m = re.search(r"splicer (begin|end)\s+(\S+)", line)
         if m and m.start() > 0:
             if m.group(1) == "begin":
                 cur = (m.group(2), [])
@@ -232,6 +233,36 @@ def e2e(ctx, descs, bad_rate):
                             predefined.add((g, bn))
             for g, t in (yd.get("splicer_code") or {}).items():
                 predefined.add((g, "*"))
+            # splicer files named on the description's command line
+            for a in cmdline or []:
+                cand = [a, os.path.join(vlib.REPO, "regression", "input", os.path.basename(a))]
+                for pth in cand:
+                    if os.path.isfile(pth) and not pth.endswith((".yaml", ".json")):
+                        g = {"c": "c", "cpp": "c", "h": "c", "hpp": "c", "f": "f", "f90": "f", "py": "py", "lua": "lua"}.get(pth.rsplit(".", 1)[-1].lower())
+                        if g:
+                            for (bn, _) in parse_blocks(open(pth, encoding="utf-8", errors="replace").read()):
+                                predefined.add((g, bn))
+                        break
+            # declarations that carry their own 'splicer:' text in the description: that text is the forced body of the
+            # function's blocks (and of its bufferify / generic variants), a user file does not replace it
+            sys.path.insert(0, vlib.REPO)
+            from shroud import util as _su
+            forced = set()
+
+            def walk_decls(n):
+                for dd in (n.get("declarations") or []):
+                    if isinstance(dd, dict):
+                        if dd.get("splicer") and isinstance(dd.get("decl"), str):
+                            mm = re.search(r"(\w+)\s*\(", dd["decl"])
+                            if mm:
+                                forced.add(_su.un_camel(mm.group(1)))
+                        walk_decls(dd)
+            walk_decls(yd)
+            for g in list(names):
+                for bn in names[g]:
+                    last = bn.split(".")[-1]
+                    if any(last == f or last.startswith(f + "_") for f in forced):
+                        predefined.add((g, bn))
         except Exception:
             pass
         for g in list(names):
